@@ -33,3 +33,29 @@ Fixpoint simple_tree (t : tree) : bool :=
   | Lst ts => (fix go (l : list tree) : bool :=
                  match l with [] => true | c :: l' => simple_tree c && go l' end) ts
   end.
+
+(* ---- the full writer domain: string leaves that the writer wraps in quotes ---------------------------------- *)
+(* single-line strings free of dollar, comment markers and reserved placeholder words (the quantifier of C01), using at
+   most one flavour of quote character, and not starting or ending with a quote character (one INNER quoted segment) *)
+Definition lit_char (c : cp) : bool := negb (is_linebreak c) && negb (c =? c_dollar).
+Definition quote_at_end (s : str) : bool :=
+  match s with c :: _ => is_quote c | [] => false end || match rev s with c :: _ => is_quote c | [] => false end.
+Definition quotable (s : str) : bool :=
+  forallb lit_char s && no_reserved_word s
+  && negb (contains [c_slash; c_slash] s) && negb (contains [c_slash; c_star] s)
+  && negb (has_char c_sq s && has_char c_dq s) && negb (quote_at_end s).
+Definition is_quoted_form (s : str) : bool := str_eqb (format_string s) (sq s) || str_eqb (format_string s) (dq s).
+Definition writable_leaf (v : scalar) : bool :=
+  simple_leaf v || match v with SStr s => quotable s && is_quoted_form s | _ => false end.
+Fixpoint writable_tree (t : tree) : bool :=
+  match t with
+  | Leaf v => writable_leaf v
+  | Dict kvs => (fix go (l : list (key * tree)) : bool :=
+                   match l with [] => true | (k, c) :: l' => simple_key k && writable_tree c && go l' end) kvs
+  | Lst ts => (fix go (l : list tree) : bool :=
+                 match l with [] => true | c :: l' => writable_tree c && go l' end) ts
+  end.
+(* the leaf as the classifier reads the CONTENT of its written form back (documented normalisation): for a bare
+   token this is norm_scalar; for a quoted string it is the classifier applied to the string itself *)
+Definition written_value (v : scalar) : scalar :=
+  match parse_value (remove_quotes (format_scalar v)) with Ok x => x | Raise _ => v end.
